@@ -175,13 +175,17 @@ func (w *world) viaWire(pb *api.ChangePack, what string) (*change.Pack, *kit.Fai
 	if msg := safe(func() error { var e error; pb3, e = converter.ToChangePack(p2); return e }); msg != "" {
 		return nil, kit.Failf("REENCODE-ERROR", "%s: ToChangePack(FromChangePack(p)): %s", what, msg)
 	}
-	if !proto.Equal(pb, pb3) {
-		return nil, kit.Failf("REENCODE-DIFF", "%s: ToChangePack(FromChangePack(p)) != p\n%s", what, packDiff(pb, pb3))
+	if !sameMeaning(pb, pb3) {
+		return nil, kit.Failf("REENCODE-DIFF", "%s: ToChangePack(FromChangePack(p)) != p\n%s", what, packDiff(pb, pb3, "sent", "re-encoded"))
 	}
 	return p2, nil
 }
 
-func packDiff(a, b *api.ChangePack) string {
+func packDiff(a, b *api.ChangePack, la, lb string) string {
+	a, b = proto.Clone(a).(*api.ChangePack), proto.Clone(b).(*api.ChangePack)
+	canon(a)
+	canon(b)
+	la, lb = fmt.Sprintf("%-11s", la+":"), fmt.Sprintf("%-11s", lb+":")
 	if len(a.Changes) != len(b.Changes) {
 		return fmt.Sprintf("changes %d vs %d", len(a.Changes), len(b.Changes))
 	}
@@ -193,15 +197,15 @@ func packDiff(a, b *api.ChangePack) string {
 		if len(ca.Operations) == len(cb.Operations) {
 			for j := range ca.Operations {
 				if !proto.Equal(ca.Operations[j], cb.Operations[j]) {
-					return fmt.Sprintf("change %d op %d:\n   sent:      %s\n   re-encoded: %s", i, j, pbText(ca.Operations[j]), pbText(cb.Operations[j]))
+					return fmt.Sprintf("change %d op %d:\n   %s %s\n   %s %s", i, j, la, pbText(ca.Operations[j]), lb, pbText(cb.Operations[j]))
 				}
 			}
 		}
-		return fmt.Sprintf("change %d:\n   sent:      %s\n   re-encoded: %s", i, pbText(ca), pbText(cb))
+		return fmt.Sprintf("change %d:\n   %s %s\n   %s %s", i, la, pbText(ca), lb, pbText(cb))
 	}
 	ha, hb := proto.Clone(a).(*api.ChangePack), proto.Clone(b).(*api.ChangePack)
 	ha.Changes, hb.Changes = nil, nil
-	return fmt.Sprintf("pack header:\n   sent:      %s\n   re-encoded: %s", pbText(ha), pbText(hb))
+	return fmt.Sprintf("pack header:\n   %s %s\n   %s %s", la, pbText(ha), lb, pbText(hb))
 }
 
 func (w *world) observe(m proto.Message) {
@@ -324,7 +328,7 @@ func (s *server) advance() *kit.Failure {
 			if ea != nil || eb != nil {
 				return kit.Failf("STORED-REENCODE-ERROR", "ToChanges: %v / %v", ea, eb)
 			}
-			if !proto.Equal(pa[0], pb[0]) {
+			if !sameMeaning(pa[0], pb[0]) {
 				return kit.Failf("STORED-CHANGE-DIFF", "ChangeInfo round trip changed the change at serverSeq %d:\n   received: %s\n   stored:   %s",
 					seq, pbText(pa[0]), pbText(pb[0]))
 			}
@@ -389,8 +393,13 @@ func (s *server) compareTwins(when string, physical bool) *kit.Failure {
 		if tm := tw.doc.Marshal(); tm != m {
 			return kit.Failf("SNAPSHOT-TAIL-DIFF", "%s the snapshot round-tripped at serverSeq %d diverged:\n   original: %s\n    decoded: %s", when, tw.at, m, tm)
 		}
-		if tg := tw.doc.GarbageLen(); tg != g {
-			return kit.Failf("SNAPSHOT-TAIL-GARBAGE", "%s GarbageLen of the snapshot round-tripped at serverSeq %d: original %d, decoded %d", when, tw.at, g, tg)
+		if same, ex := garbageSame(s.doc, tw.doc); !same {
+			if ex {
+				tw.dead = true
+				s.w.ob.hit("excluded:" + findingGarbageLeak)
+				continue
+			}
+			return kit.Failf("SNAPSHOT-TAIL-GARBAGE", "%s GarbageLen of the snapshot round-tripped at serverSeq %d: original %d, decoded %d", when, tw.at, g, tw.doc.GarbageLen())
 		}
 		if physical {
 			if td := dump(tw.doc.RootObject()); td != d {
@@ -435,12 +444,22 @@ func (s *server) collect() (int, *kit.Failure) {
 		}
 		tn := 0
 		tmsg := safe(func() error { var e error; tn, e = tw.doc.GarbageCollect(vec); return e })
-		if firstLine(tmsg) != firstLine(msg) || tn != n {
+		if firstLine(tmsg) != firstLine(msg) {
 			return 0, kit.Failf("SNAPSHOT-TAIL-GC", "garbage collection at %v on the snapshot round-tripped at serverSeq %d: original purged %d (%q), decoded purged %d (%q)",
 				vec, tw.at, n, msg, tn, tmsg)
 		}
 		if tmsg != "" {
 			tw.dead = true
+			continue
+		}
+		if same, ex := garbageSame(s.doc, tw.doc); !same {
+			if !ex {
+				return 0, kit.Failf("SNAPSHOT-TAIL-GC", "garbage collection at %v on the snapshot round-tripped at serverSeq %d: original purged %d and keeps %d, decoded purged %d and keeps %d",
+					vec, tw.at, n, s.doc.GarbageLen(), tn, tw.doc.GarbageLen())
+			}
+			// the original counts garbage its own deep copy does not hold
+			tw.dead = true
+			s.w.ob.hit("excluded:" + findingGarbageLeak)
 		}
 	}
 	if n > 0 {
@@ -483,6 +502,14 @@ func (s *server) snap() *kit.Failure {
 		return f
 	}
 	ob := s.w.ob
+	if excl(findingMemberTombstone) && staleMemberTombstone(s.doc.RootObject()) {
+		ob.hit("excluded:" + findingMemberTombstone)
+		return nil
+	}
+	if excl(findingGarbageLeak) && leakedGarbage(s.doc) {
+		ob.hit("excluded:" + findingGarbageLeak)
+		return nil
+	}
 	pbSnap := &api.Snapshot{}
 	if err := proto.Unmarshal(b, pbSnap); err != nil {
 		return kit.Failf("DECODE-ERROR", "proto.Unmarshal(SnapshotToBytes): %v", err)
@@ -504,6 +531,10 @@ func (s *server) snap() *kit.Failure {
 		return kit.Failf("SNAPSHOT-CONTENT", "BytesToSnapshot(SnapshotToBytes(d)).Marshal() differs at serverSeq %d:\n   original: %s\n    decoded: %s", s.applied, m, tm)
 	}
 	if g, tg := s.doc.GarbageLen(), tdoc.GarbageLen(); g != tg {
+		if _, ex := garbageSame(s.doc, tdoc); ex {
+			ob.hit("excluded:" + findingGarbageLeak)
+			return nil
+		}
 		return kit.Failf("SNAPSHOT-GARBAGE", "GarbageLen after the snapshot round trip at serverSeq %d: original %d, decoded %d\ndocument: %s", s.applied, g, tg, s.doc.Marshal())
 	}
 	if d, td := dump(s.doc.RootObject()), dump(tdoc.RootObject()); d != td {
@@ -524,9 +555,7 @@ func (s *server) snap() *kit.Failure {
 	if err := proto.Unmarshal(b2, pbSnap2); err != nil {
 		return kit.Failf("REENCODE-ERROR", "re-encoded snapshot does not unmarshal: %v", err)
 	}
-	sortSnapshot(pbSnap)
-	sortSnapshot(pbSnap2)
-	if !proto.Equal(pbSnap, pbSnap2) {
+	if !sameMeaning(pbSnap, pbSnap2) {
 		return kit.Failf("REENCODE-DIFF", "SnapshotToBytes(BytesToSnapshot(b)) != b at serverSeq %d\n   first:  %s\n   second: %s", s.applied, pbText(pbSnap), pbText(pbSnap2))
 	}
 	ob.hit("snapshot_roundtrip")
@@ -543,9 +572,12 @@ func (s *server) snap() *kit.Failure {
 	return nil
 }
 
-// sortSnapshot orders the object members of a snapshot message (the encoder
-// emits them in Go map order).
-func sortSnapshot(m proto.Message) {
+// canon brings a message into a normal form in place, so that two encodings
+// of the same value compare equal with proto.Equal: object members ordered
+// (the encoder emits them in Go map order), moved_at made explicit, and the
+// protobuf bytes nested in JSONElementSimple.value / ChangePack.snapshot
+// normalised the same way.
+func canon(m proto.Message) {
 	var walk func(m protoreflect.Message)
 	walk = func(m protoreflect.Message) {
 		m.Range(func(fd protoreflect.FieldDescriptor, v protoreflect.Value) bool {
@@ -557,9 +589,28 @@ func sortSnapshot(m proto.Message) {
 			case fd.IsMap():
 			case fd.Message() != nil:
 				walk(v.Message())
+			case isNestedProtoBytes(m, fd):
+				var inner proto.Message = &api.JSONElement{}
+				if fd.Name() == "snapshot" {
+					inner = &api.Snapshot{}
+				}
+				if proto.Unmarshal(v.Bytes(), inner) == nil {
+					walk(inner.ProtoReflect())
+					if b, err := detMarshal.Marshal(inner); err == nil {
+						m.Set(fd, protoreflect.ValueOfBytes(b))
+					}
+				}
 			}
 			return true
 		})
+		switch m.Descriptor().Name() {
+		case "JSONObject", "JSONArray", "Primitive", "Text", "Counter", "Tree":
+			// an absent moved_at means "positioned at created_at"
+			fs := m.Descriptor().Fields()
+			if mv, cr := fs.ByName("moved_at"), fs.ByName("created_at"); mv != nil && cr != nil && !m.Has(mv) && m.Has(cr) {
+				m.Set(mv, protoreflect.ValueOfMessage(proto.Clone(m.Get(cr).Message().Interface()).ProtoReflect()))
+			}
+		}
 		if m.Descriptor().Name() == "JSONObject" {
 			fd := m.Descriptor().Fields().ByName("nodes")
 			l := m.Mutable(fd).List()
@@ -567,7 +618,7 @@ func sortSnapshot(m proto.Message) {
 			keys := make([]string, l.Len())
 			for i := range items {
 				items[i] = l.Get(i)
-				b, _ := proto.MarshalOptions{Deterministic: true}.Marshal(items[i].Message().Interface())
+				b, _ := detMarshal.Marshal(items[i].Message().Interface())
 				keys[i] = string(b)
 			}
 			idx := make([]int, len(items))
@@ -585,6 +636,34 @@ func sortSnapshot(m proto.Message) {
 		}
 	}
 	walk(m.ProtoReflect())
+}
+
+// sameMeaning compares two messages in normal form (the arguments are cloned).
+func sameMeaning(a, b proto.Message) bool {
+	if proto.Equal(a, b) {
+		return true
+	}
+	ca, cb := proto.Clone(a), proto.Clone(b)
+	canon(ca)
+	canon(cb)
+	return proto.Equal(ca, cb)
+}
+
+// garbageSame compares GarbageLen of two documents that must agree. A
+// difference that disappears on the documents' own in-memory deep copies is
+// stale bookkeeping of the original (known finding), not a lost tombstone.
+func garbageSame(a, b *document.InternalDocument) (same, excluded bool) {
+	if a.GarbageLen() == b.GarbageLen() {
+		return true, false
+	}
+	if excl(findingGarbageLeak) {
+		ca, ea := a.DeepCopy()
+		cb, eb := b.DeepCopy()
+		if ea == nil && eb == nil && ca.GarbageLen() == cb.GarbageLen() {
+			return false, true
+		}
+	}
+	return false, false
 }
 
 type pullResult struct {
@@ -618,7 +697,17 @@ func (s *server) pushPull(actor time.ActorID, req *change.Pack, wantSnapshot boo
 				s.w.ob.corpus.addInfo(info)
 			}
 		}
-		s.stored = append(s.stored, change.New(c.ID().SetServerSeq(s.head), c.Message(), c.Operations(), c.PresenceChange()))
+		// The id is copied deeply: a Document keeps mutating the version
+		// vector map its unsent changes share with its own clock
+		// (ID.SyncClocks works in place), so the direct world must freeze the
+		// vector at sending time exactly as encoding does.
+		// The same holds for the presence of a change: it is the very map
+		// the sender's next presence update writes to.
+		pc := c.PresenceChange()
+		if pc != nil {
+			pc = &presence.Change{ChangeType: pc.ChangeType, Presence: pc.Presence.DeepCopy()}
+		}
+		s.stored = append(s.stored, change.New(c.ID().DeepCopy().SetServerSeq(s.head), c.Message(), c.Operations(), pc))
 		ci.clientSeq = c.ClientSeq()
 	}
 	vv := req.VersionVector.DeepCopy()
@@ -766,7 +855,9 @@ func (x *run) compare(i int, when string) *kit.Failure {
 	if ma, mb := a.d.Marshal(), b.d.Marshal(); ma != mb {
 		return kit.Failf("CONTENT-DIFF", "%s: c%d differs between direct and encoded delivery:\n    direct: %s\n   encoded: %s", when, i, ma, mb)
 	}
-	if ga, gb := a.d.GarbageLen(), b.d.GarbageLen(); ga != gb {
+	if same, ex := garbageSame(a.d.InternalDocument(), b.d.InternalDocument()); ex {
+		x.w.ob.hit("excluded:" + findingGarbageLeak)
+	} else if ga, gb := a.d.GarbageLen(), b.d.GarbageLen(); !same {
 		return kit.Failf("GARBAGE-DIFF", "%s: GarbageLen of c%d: direct %d, encoded %d\ncontent: %s", when, i, ga, gb, a.d.Marshal())
 	}
 	if da, db := dump(a.d.RootObject()), dump(b.d.RootObject()); da != db {
@@ -780,8 +871,8 @@ func (x *run) compare(i int, when string) *kit.Failure {
 	if ea != nil || eb != nil {
 		return kit.Failf("ENCODE-ERROR", "%s: ToChangePack of c%d's next request: %v / %v", when, i, ea, eb)
 	}
-	if !proto.Equal(pa, pb) {
-		return kit.Failf("NEXT-REQUEST-DIFF", "%s: the pack c%d would send next differs between direct and encoded delivery\n%s", when, i, packDiff(pa, pb))
+	if !sameMeaning(pa, pb) {
+		return kit.Failf("NEXT-REQUEST-DIFF", "%s: the pack c%d would send next differs between direct and encoded delivery\n%s", when, i, packDiff(pa, pb, "direct", "encoded"))
 	}
 	if a.d.CanUndo() != b.d.CanUndo() || a.d.CanRedo() != b.d.CanRedo() || a.d.UndoStackLenForTest() != b.d.UndoStackLenForTest() {
 		return kit.Failf("HISTORY-DIFF", "%s: undo/redo stacks of c%d differ (canUndo %v/%v canRedo %v/%v len %d/%d)", when, i,
@@ -801,7 +892,9 @@ func (x *run) compareServers(when string) *kit.Failure {
 	if ma, mb := a.doc.Marshal(), b.doc.Marshal(); ma != mb {
 		return kit.Failf("STORED-CONTENT-DIFF", "%s: replay of the stored ChangeInfo rows differs from replay of the native changes:\n   native: %s\n   stored: %s", when, ma, mb)
 	}
-	if ga, gb := a.doc.GarbageLen(), b.doc.GarbageLen(); ga != gb {
+	if same, ex := garbageSame(a.doc, b.doc); ex {
+		x.w.ob.hit("excluded:" + findingGarbageLeak)
+	} else if ga, gb := a.doc.GarbageLen(), b.doc.GarbageLen(); !same {
 		return kit.Failf("STORED-GARBAGE-DIFF", "%s: GarbageLen of the replayed log: native %d, stored %d", when, ga, gb)
 	}
 	if da, db := dump(a.doc.RootObject()), dump(b.doc.RootObject()); da != db {
@@ -899,6 +992,18 @@ func runCase(c Case, ob *observer) (fail *kit.Failure, hist []string) {
 			if len(x.d.reps) >= n+2 {
 				x.logf("c%d: sync", i)
 				return x.syncBoth(i, false)
+			}
+			if excl(findingMemberTombstone) {
+				// a replica built from a snapshot whose decoding is not
+				// deterministic (known finding) cannot be compared
+				if f := x.snapBoth(); f != nil {
+					return f
+				}
+				if x.w.srv.dead == "" && staleMemberTombstone(x.w.srv.doc.RootObject()) {
+					ob.hit("excluded:" + findingMemberTombstone)
+					x.logf("c%d: sync (late attach excluded: %s)", i, findingMemberTombstone)
+					return x.syncBoth(i, false)
+				}
 			}
 			x.logf("c%d: attach from a snapshot", len(x.d.reps))
 			return x.syncBoth(0, true)
